@@ -40,12 +40,13 @@ type c02Conn struct {
 }
 
 type c02Run struct {
-	c      *fw.Ctx
-	b      *bed
-	conns  map[string]*c02Conn
-	seq    int
-	paired bool
-	fail   func(sig, desc string)
+	c         *fw.Ctx
+	b         *bed
+	conns     map[string]*c02Conn
+	seq       int
+	paired    bool
+	wrongCode string
+	fail      func(sig, desc string)
 }
 
 func (r *c02Run) conn(name string) *c02Conn {
@@ -190,7 +191,7 @@ func (r *c02Run) step(ev string) bool {
 		return r.checkStore(ev)
 	case "M3-wrong-code":
 		cl := refctl.NewSRPClient(refctl.Seed32(fmt.Sprintf("xa:%d", r.seq)))
-		cl.Compute(ctx.Salt, ctx.B, "111-22-333")
+		cl.Compute(ctx.Salt, ctx.B, r.wrongCode)
 		cn.wrong = cl
 		m, err = post(refctl.TLVEncode(refctl.T(refctl.TagState, []byte{3}), refctl.T(refctl.TagPublicKey, cl.A), refctl.T(refctl.TagProof, cl.M1)))
 	case "M3-A-zero":
@@ -324,26 +325,41 @@ func (r *c02Run) checkStore(ev string) bool {
 }
 
 type c02Case struct {
+	Pin  string   `json:"pin,omitempty"`
 	Hist []string `json:"hist"`
 }
 
+// Successive systems in one worker process alternate between two setup codes, and the adversary's "wrong code" is
+// always the OTHER one — a code that was valid for the previous system in the same process.
+var c02Pins = []string{"00102003", "46637726"}
+var c02Seq int
+
 func c02Exec(c *fw.Ctx, hist []string) bool {
+	c02Seq++
+	return c02ExecPin(c, c02Pins[c02Seq%2], hist)
+}
+
+func c02ExecPin(c *fw.Ctx, pin string, hist []string) bool {
 	c.Eval(1)
 	c.State(1)
 	c.Trace(1)
 	c.Transition(len(hist))
 	world.ResetCapture()
-	b, err := newBed(c, bedOpt{})
+	b, err := newBed(c, bedOpt{Pin: pin})
 	if err != nil {
 		c.Infra("bed: " + err.Error())
 		return false
 	}
 	defer b.Close()
-	r := &c02Run{c: c, b: b, conns: map[string]*c02Conn{}}
+	other := c02Pins[0]
+	if pin == other {
+		other = c02Pins[1]
+	}
+	r := &c02Run{c: c, b: b, conns: map[string]*c02Conn{}, wrongCode: formatPin(other)}
 	failed := false
 	r.fail = func(sig, desc string) {
 		failed = true
-		c.Report(sig, desc+" — history "+strings.Join(hist, ", "), c02Case{Hist: hist})
+		c.Report(sig, desc+" — history "+strings.Join(hist, ", "), c02Case{Pin: pin, Hist: hist})
 	}
 	for _, ev := range hist {
 		if !r.step(ev) {
@@ -377,6 +393,23 @@ func c02Run1(c *fw.Ctx) {
 		c02Exec(c, hist)
 		return false
 	})
+	// from the non-initial state "L has paired": every adversary history over the replay alphabet
+	post := []string{"X:M1", "X:M3-replay-L", "X:M5-replay-L", "X:M3-wrong-code", "X:M5-zero-key", "X:M3-A-zero", "L2:M5-of-L"}
+	pd := 2
+	if c.Thorough() {
+		pd = 3
+	}
+	exploreTree(c, len(post), pd, func(h []int) bool {
+		if len(h) < pd {
+			return false
+		}
+		hist := []string{"L:M1", "L:M3-valid", "L:M5-genuine"}
+		for _, s := range h {
+			hist = append(hist, post[s])
+		}
+		c02Exec(c, hist)
+		return false
+	})
 	sampled := 0
 	// only complete histories of maximal length are new work: the oracle runs after every event, so every
 	// prefix is judged inside its extensions; leaves are what we execute, plus nothing is lost by skipping inner nodes
@@ -401,12 +434,21 @@ func init() {
 	fw.Register(&fw.Check{
 		ID:    "C02",
 		Level: "model_checking",
-		Rule:  "every history of length 3 (quick, 21 symbols) / 4 (thorough, 26 symbols), plus every adversary-only history of length 5 (quick) / 7 (thorough) over 6 symbols around rejected SRP public keys, over the pair-setup alphabet on a legitimate connection L (knows the code) and an adversary connection X (sees all bytes, owns its keys, does not know the code): start; verify with right code, wrong code, A = 0 / N / 2N, proof missing, A missing, L's verify replayed, A = 0 with the proof for an empty session key; key-exchange genuine, L's genuine key-exchange delivered on another connection, sealed under the all-zero key / HKDF of an empty secret / the wrong-code secret / a random key, 0- and 15-byte payloads, tag flipped, L's key-exchange replayed; unknown method and states; reopen. Real transport over TCP with real SRP; a fresh system per history; after EVERY event the stored pairings (read through the database) must equal the model: the accessory's own entity plus exactly (L's id, L's key) iff L completed start → right-code verify → genuine key-exchange consecutively on its connection; proofs and M6 payloads must appear only when the model allows. states = histories executed (each judges all its prefixes), distinct_nontrivial = distinct (event → response class) pairs",
+		Rule:  "every history of length 3 (quick, 21 symbols) / 4 (thorough, 26 symbols), plus every adversary-only history of length 5 (quick) / 7 (thorough) over 6 symbols around rejected SRP public keys, plus — from the non-initial state 'L has completed pairing' — every adversary history of length 2 (quick) / 3 (thorough) over 7 replay symbols; successive systems of a worker process alternate between two setup codes and the adversary's wrong code is the other one, over the pair-setup alphabet on a legitimate connection L (knows the code) and an adversary connection X (sees all bytes, owns its keys, does not know the code): start; verify with right code, wrong code, A = 0 / N / 2N, proof missing, A missing, L's verify replayed, A = 0 with the proof for an empty session key; key-exchange genuine, L's genuine key-exchange delivered on another connection, sealed under the all-zero key / HKDF of an empty secret / the wrong-code secret / a random key, 0- and 15-byte payloads, tag flipped, L's key-exchange replayed; unknown method and states; reopen. Real transport over TCP with real SRP; a fresh system per history; after EVERY event the stored pairings (read through the database) must equal the model: the accessory's own entity plus exactly (L's id, L's key) iff L completed start → right-code verify → genuine key-exchange consecutively on its connection; proofs and M6 payloads must appear only when the model allows. states = histories executed (each judges all its prefixes), distinct_nontrivial = distinct (event → response class) pairs",
 		Run:   c02Run1,
 		Replay: func(c *fw.Ctx, raw json.RawMessage) {
 			var cas c02Case
 			json.Unmarshal(raw, &cas)
-			c02Exec(c, cas.Hist)
+			if cas.Pin == "" {
+				cas.Pin = c02Pins[0]
+			}
+			// the previous system of the process used the other code
+			other := c02Pins[0]
+			if cas.Pin == other {
+				other = c02Pins[1]
+			}
+			c02ExecPin(c, other, []string{"L:M1"})
+			c02ExecPin(c, cas.Pin, cas.Hist)
 		},
 		Budget: func(t string) time.Duration {
 			if t == "thorough" {
